@@ -394,6 +394,13 @@ pub(crate) fn reset() {
         n.borrow_mut().max_udp_delay_ns = 200_000_000;
     });
 }
+/// End of a *completed* execution: the simulated kernel state is dropped for real (inside the
+/// live execution, so wake-ups triggered by closing sockets are harmless). Only executions that
+/// were aborted leak their state (see `reset`).
+pub(crate) fn clear_after_finish() {
+    let old = NET.with(|n| std::mem::take(&mut *n.borrow_mut()));
+    drop(old);
+}
 pub fn set_max_udp_delay(d: Duration) {
     NET.with(|n| n.borrow_mut().max_udp_delay_ns = d.as_nanos() as u64);
 }
